@@ -77,6 +77,11 @@ def harnesses(t):
     # k(,b,c) -> [+b*c+k]
     for l in [(1, 1, 1)] + ([(2, 2, 1), (3, 1, 1)] if t == "thorough" else []):
         hs.append(form("mem4_nobase", "kbc", l, 'k + "(," + b + "," + c + ")"', '"[+" + b + "*" + c + "+" + k + "]"', T, note="k(,b,c)"))
+    # (a,b,c)d -> [a+b*c+d]  and  (a)d -> [a+d]   (AVX-512 decorations {%k1} / {1to16} are printed AFTER the parenthesis)
+    for l in [(1, 1, 1, 1)] + ([(2, 2, 1, 2)] if t == "thorough" else []):
+        hs.append(form("mem3_suffix", "abcd", l, '"(" + a + "," + b + "," + c + ")" + d', '"[" + a + "+" + b + "*" + c + "+" + d + "]"', T, note="(a,b,c)d"))
+    for l in [(1, 1), (2, 2)]:
+        hs.append(form("mem0_suffix", "ad", l, '"(" + a + ")" + d', '"[" + a + "+" + d + "]"', T, note="(a)d"))
     # (a,b,c) -> [a+b*c]
     for l in [(1, 1, 1), (2, 2, 1)] + ([(3, 3, 1), (2, 3, 1), (3, 2, 1)] if t == "thorough" else []):
         hs.append(form("mem3", "abc", l, '"(" + a + "," + b + "," + c + ")"', '"[" + a + "+" + b + "*" + c + "]"', T, note="(a,b,c)"))
